@@ -97,7 +97,7 @@ def main(argv):
     known_active = {k["id"]: k for k in known if k.get("status") == "known"}
     os.environ["PYVC_KNOWN"] = ",".join(sorted(known_active))
     ledger = load_ledger().get(pid, {})
-    timeout_ms = 10000 if tier == "quick" else 60000
+    timeout_ms = 20000 if tier == "quick" else 60000
 
     lines = []  # stdout lines
     violations = []  # (oid, replay path, suffix)
